@@ -218,8 +218,8 @@ func scenarios(tier string) []scen {
 		for _, ca := range [][2]int{{1, 1}, {1, 2}} {
 			out = append(out, scen{Def: d, Opt: world.Options{Workers: ca[0], MaxConcurrentAssets: ca[1], MaxRetry: 1, MaxRedirect: 2, ExcludeHosts: []string{"excluded.example"}}, P: sweepP})
 		}
-		// tight limits: no retry, one redirect (chains are cut short, the seed must still finish once), two workers per stage
-		out = append(out, scen{Def: d, Opt: world.Options{Workers: 2, MaxConcurrentAssets: 1, MaxRetry: 0, MaxRedirect: 1, ExcludeHosts: []string{"excluded.example"}}, P: sweepP})
+		// tight limits: no retry, one redirect (chains are cut short, the seed must still finish once), two workers per stage; outlink extraction on (max-hops 1)
+		out = append(out, scen{Def: d, Opt: world.Options{Workers: 2, MaxConcurrentAssets: 1, MaxRetry: 0, MaxRedirect: 1, MaxHops: 1, ExcludeHosts: []string{"excluded.example"}}, P: sweepP})
 	}
 	for _, ds := range world.DepthSites() {
 		s := scen{Def: ds.Def, After: ds.After}
